@@ -145,6 +145,57 @@ def gen_native(tu):
     yield "sampled points", guarded(run)
 
 
+def gen_native_products(tu):
+    """BOUNDED: the real pairing_product on mixed lists of plain and prepared pairs (sampled subgroup points, identity members, a negated pair, a
+    prepared point shared by two pairs) against the product of the single pairings of the same pairs (Fq12::multiply).  The value-level units of
+    contracts/pairing_c.py decide products over an ABSTRACT Fq12; code that writes the accumulator's coefficients directly is outside that
+    abstraction (undecided there) -- this run is the bounded stand-in for such code."""
+    def run(path):
+        import replay as R_, tempfile, shutil
+        wd = tempfile.mkdtemp(prefix="jpv.pp.")
+        try:
+            src = R_.unity_source() + r"""
+#include <stdio.h>
+#include <string.h>
+using namespace embedded_pairing; using namespace embedded_pairing::core; using namespace embedded_pairing::bls12_381;
+static void mk1(G1Affine& o, uint64_t k) { BigInt<256> s; memset(&s, 0, sizeof s); memcpy(&s, &k, 8); G1 p; p.multiply(G1Affine::generator, s); o.from_projective(p); }
+static void mk2(G2Affine& o, uint64_t k) { BigInt<256> s; memset(&s, 0, sizeof s); memcpy(&s, &k, 8); G2 p; p.multiply(G2Affine::generator, s); o.from_projective(p); }
+int main() {
+  G1Affine P[6]; G2Affine Q[6]; G2Prepared QP[6];
+  uint64_t a[6] = {3, 0, 11, 5, 7, 1}, b[6] = {2, 9, 0, 13, 4, 6};      /* P[1] and Q[2] are identities */
+  for (int i = 0; i < 6; i++) { mk1(P[i], a[i]); mk2(Q[i], b[i]); QP[i].prepare(Q[i]); }
+  G1Affine Pn; Pn.negate(P[0]);
+  int shapes[9][2] = {{1,1},{2,1},{1,2},{2,2},{3,2},{0,2},{2,0},{3,3},{1,3}};
+  int bad = 0;
+  for (int t = 0; t < 9; t++) {
+    int na = shapes[t][0], np = shapes[t][1];
+    AffinePair ap[3]; PreparedPair pp[3]; Fq12 want, one; want.copy(Fq12::one);
+    for (int j = 0; j < na; j++) { ap[j].g1 = &P[j]; ap[j].g2 = &Q[j + 3 > 5 ? 5 : j + 3]; Fq12 e; pairing(e, *ap[j].g1, *ap[j].g2); want.multiply(want, e); }
+    for (int j = 0; j < np; j++) { int k = (t == 7 && j == 2) ? 3 : j + 3; pp[j].g1 = (t == 4 && j == 0) ? &Pn : &P[5 - j]; pp[j].g2 = &QP[k > 5 ? 5 : k]; Fq12 e; pairing(e, *pp[j].g1, Q[k > 5 ? 5 : k]); want.multiply(want, e); }
+    Fq12 got; pairing_product(got, ap, na, pp, np);
+    int ok = memcmp(&got, &want, sizeof got) == 0;
+    printf("case%d %d\n", t, ok); if (!ok) bad++;
+    /* a second product on the same records (cursors must have been reset) */
+    pairing_product(got, ap, na, pp, np); ok = memcmp(&got, &want, sizeof got) == 0; printf("again%d %d\n", t, ok);
+  }
+  return 0; }
+"""
+            native, err = R_.run_native(src, wd, "pairing_products_native")
+            if native is None:
+                raise SymxErrorLike(err)
+            shapes = [(1, 1), (2, 1), (1, 2), (2, 2), (3, 2), (0, 2), (2, 0), (3, 3), (1, 3)]
+            obs = []
+            for t, (na, np_) in enumerate(shapes):
+                for tag in ("case", "again"):
+                    ok = native.get("%s%d" % (tag, t)) == [1]
+                    obs.append(("native pairing_product(%d plain + %d prepared pairs%s) == product of the single pairings" % (na, np_, ", records reused" if tag == "again" else ""), "ok" if ok else "fail",
+                                "" if ok else "list shape (%d plain, %d prepared), points [k]G1 / [k]G2 with small k, identities at fixed places" % (na, np_), None))
+            return obs
+        finally:
+            shutil.rmtree(wd, ignore_errors=True)
+    yield "mixed lists", guarded(run)
+
+
 class SymxErrorLike(Exception):
     pass
 
@@ -152,5 +203,8 @@ class SymxErrorLike(Exception):
 def units():
     return [ScenUnit("generator_pairing == e(G1 generator, G2 generator) by the definition-level reference pairing; order r", P, gen, targets=[],
                      contracts_used=["tools/tower_ref.py: tower arithmetic from the defining polynomials", "the refinement of miller_loop / final_exponentiation to this algorithm: contracts/pairing_c.py"]),
+            ScenUnit("native pairing_product on mixed plain / prepared lists == product of the single pairings (sampled points)", ["C08", "C01"], gen_native_products, kind="bounded",
+                     bound="9 list shapes up to 3 + 3 pairs, fixed small multiples of the generators, identity members, records reused", targets=[],
+                     note="bounded stand-in for code that writes the Miller accumulator's representation directly (outside the schedule units' abstraction)"),
             ScenUnit("native pairing() == definition-level reference pairing on sampled subgroup points and identity cases", P, gen_native, tier="thorough", kind="bounded",
                      bound="7 point pairs ([a]G1, [b]G2), incl. a = 0 / b = 0 and a, b near r", targets=[], note="bounded evidence for the step the refinement argument takes from the literature")]
